@@ -173,9 +173,9 @@ Section NoPanic.
   Lemma commit_walk_ok lcr : forall fuel parent acc s,
     Inv s -> Closed s -> has_parent s parent ->
     (ddepth (block_digest parent) < fuel)%nat ->
-    exists acc', commit_walk fuel lcr parent acc s = (s, [], ROk acc').
+    exists acc', commit_walk src_dq fuel lcr parent acc s = (s, [], ROk acc').
   Proof.
-    induction fuel as [|f IH]; intros parent acc s H Hc Hp Hf; [lia|]. simpl. gunf.
+    induction fuel as [|f IH]; intros parent acc s H Hc Hp Hf; [lia|]. simpl. gunfdq.
     destruct (lcr + 1 <? b_round parent); [|eexists; reflexivity].
     destruct (gpb_some parent s Hp) as [anc [Hg Hpar]].
     unfold bind at 1. rewrite Hg.
@@ -205,13 +205,13 @@ Section NoPanic.
 
   Lemma commit_ok b0 s :
     Inv s -> Closed s -> has_parent s b0 ->
-    match commit true b0 s with
+    match commit src_dq b0 s with
     | (s', _, res) => res = ROk tt /\ same_store s s'
     end.
   Proof.
-    intros H Hc Hp. unfold commit. gunf. unfold bind at 1. unfold get at 1.
+    intros H Hc Hp. unfold commit. gunfdq. unfold bind at 1. unfold get at 1.
     destruct (b_round b0 <=? s_last_committed s); [unfold ret; split; reflexivity|].
-    destruct (commit_walk_ok (s_last_committed s) (S (S (ddepth (block_digest b0)))) b0 [] s H Hc Hp) as [anc E]; [lia|].
+    destruct (commit_walk_ok (s_last_committed s) (S (S (ddepth (block_digest b0)))) b0 [] s H Hc Hp) as [anc E]; [lia|]. gunfdq.
     unfold bind at 1. rewrite E. unfold bind at 1. unfold modify at 1.
     pose proof (skeeps_deliver_all (anc ++ [b0]) (set_last_committed s (b_round b0))) as K.
     destruct (deliver_all_ok (anc ++ [b0]) (set_last_committed s (b_round b0))) as [s' [o E2]].
@@ -241,7 +241,7 @@ Section NoPanic.
 
   Lemma process_block_np hint b s :
     Inv s -> Closed s -> vetted s b ->
-    match process_block c me true hint b s with
+    match process_block c me src_dq hint b s with
     | (s', _, res) => (forall k, res <> RPanic k) /\ Closed s'
     end.
   Proof.
@@ -306,7 +306,7 @@ Section NoPanic.
         - destruct G0 as [G0|G0]; [left; exact G0|right; rewrite St; right; exact G0].
         - lia. }
       pose proof ($commit_inv b0 s5 I5 Hv05 Hd) as Kc.
-      destruct (commit true b0 s5) as [[s6 o6] r6]. destruct CO as [-> K6]. destruct Kc as [I6 [L6 _]].
+      destruct (commit src_dq b0 s5) as [[s6 o6] r6]. destruct CO as [-> K6]. destruct Kc as [I6 [L6 _]].
       split; [exact I6|]. split; [exact (sle_tr _ _ _ L5 L6)|]. split; [reflexivity|eapply Closed_keep; eauto]. }
     unfold bind at 1.
     destruct (cm s4) as [[s7 o7] r7]. destruct C as [I7 [L7 [-> Hc7]]].
@@ -338,7 +338,7 @@ Section NoPanic.
 
   Lemma handle_proposal_np hint b s :
     Inv s -> Closed s -> block_sound c me honest w0 s b ->
-    match handle_proposal c me true hint b s with
+    match handle_proposal c me src_dq hint b s with
     | (s', _, res) => (forall k, res <> RPanic k) /\ Closed s'
     end.
   Proof.
@@ -383,13 +383,13 @@ Section NoPanic.
     destruct ok.
     - assert (Hv3 : vetted s3 b) by (eapply ($vetted_sle); eauto).
       pose proof (process_block_np hint b s3 I3 Hc3 Hv3) as B.
-      destruct (process_block c me true hint b s3) as [[s4 o4] r4]. exact B.
+      destruct (process_block c me src_dq hint b s3) as [[s4 o4] r4]. exact B.
     - unfold ret. split; [intros k; discriminate|exact Hc3].
   Qed.
 
   Theorem step_np hint e s :
     Inv s -> Closed s -> ev_adm c me honest w0 s e ->
-    match step c me true hint e s with
+    match step c me src_dq hint e s with
     | (s', _, res) => (forall k, res <> RPanic k) /\ Closed s'
     end.
   Proof.
@@ -418,7 +418,7 @@ Section NoPanic.
         intros y Hy. left. unfold in_flight in *. simpl in *. destruct Hy as [Hy|Hy]; auto. }
       assert (L1 : sle s s1) by (split; [exists []; reflexivity|simpl; lia]).
       pose proof (process_block_np hint x s1 I1 Hc (($vetted_sle) _ _ _ Hvx L1)) as B.
-      destruct (process_block c me true hint x s1) as [[s2 o2] r2]. exact B.
+      destruct (process_block c me src_dq hint x s1) as [[s2 o2] r2]. exact B.
     - pose proof ($local_timeout_inv hint s H) as X. pose proof (skeeps_local_timeout c me hint s) as K.
       destruct (local_timeout c me hint s) as [[s1 o1] r1]. unfold st in K; simpl in K.
       destruct X as [_ [_ N1]]. split; [exact N1|eapply Closed_keep; eauto].
